@@ -137,6 +137,13 @@ def c_xor(a, b):
     return _from_xs(xa[0] ^ xb[0], xa[1] ^ xb[1])
 
 
+def tab_cells(base, k, idx_cells, w):
+    """bits of base[k + idx] for a non-constant index: a function of the significant index bits"""
+    idx_cells = list(idx_cells)
+    hi = max((i + 1 for i, c_ in enumerate(idx_cells) if c_ != 0), default=1)
+    return [('i', ('tab', base, k, tuple(idx_cells[:hi])), i) for i in range(w)]
+
+
 def u_op(name, a, b, w, commutative=True):
     """result bits of an operation the lattice does not interpret (multiplication, addition of two
     non-constants, a table lookup at a non-constant index): fresh input bits keyed by the operand
@@ -690,8 +697,7 @@ class BVExec(Interp):
                 info = width_of_type(dtype(n0)) or (8, False)
                 if T not in iv_.b:
                     # non-constant index: the element is a function of the index bits
-                    idx = tuple(iv_.b[:max(1, max((i + 1 for i, c_ in enumerate(iv_.b) if c_ != 0), default=1))])
-                    return BV(info[0], [('i', ('tab', pa.base, pa.k, idx), i) for i in range(info[0])], info[1])
+                    return BV(info[0], tab_cells(pa.base, pa.k, iv_.b, info[0]), info[1])
         if k == 'BinaryOperator' and n0.get('opcode') in ('==', '!=', '<', '>', '<=', '>=') and '*' in (qtype(strip(n0['inner'][0], casts=False)) or '') + (qtype(strip(n0['inner'][1], casts=False)) or ''):
             pa, pb = self.ptr_of(n0['inner'][0], env, depth), self.ptr_of(n0['inner'][1], env, depth)
             if pa is not None and pb is not None and pa.base == pb.base and pa.idx == pb.idx:
@@ -732,6 +738,10 @@ class BVExec(Interp):
                 return cur if n0.get('isPostfix') else new
         if k == 'SubstNonTypeTemplateParmExpr' and kids(n0):
             return self.eval(kids(n0)[0], env, depth)
+        if k in ('ImplicitCastExpr', 'CStyleCastExpr') and n0.get('castKind') == 'PointerToBoolean':
+            return BV(1, [1 if self.ptr_of(kids(n0)[0], env, depth) is not None else T])
+        if k == 'UnaryOperator' and n0.get('opcode') == '!' and '*' in (qtype(strip(kids(n0)[0], casts=False)) or ''):
+            return BV(1, [0 if self.ptr_of(kids(n0)[0], env, depth) is not None else T])
         if k == 'MemberExpr' and (not kids(n0) or is_this(kids(n0)[0])) and ('member', n0.get('name')) in env:
             return env[('member', n0.get('name'))]
         if k == 'CXXMemberCallExpr' and member_call_object(n0) is not None and not is_this(member_call_object(n0)):
@@ -899,6 +909,41 @@ class BVExec(Interp):
             if k == 'CXXTryStmt':
                 self.run([kids(s)[0]], env, depth, want_ptr)
                 continue
+            if k == 'SwitchStmt':
+                ks_ = [c for c in kids(s) if c.get('kind')]
+                v_ = bv_const(self.eval(ks_[-2], env, depth))
+                if v_ is None:
+                    raise Unsupported('switch on a non-constant value at %s' % loc_str(s))
+                body_ = ks_[-1]
+                sts_ = list(kids(body_)) if body_.get('kind') == 'CompoundStmt' else [body_]
+                start, dflt = None, None
+                for i_, st_ in enumerate(sts_):
+                    x_ = st_
+                    while x_ is not None and x_.get('kind') in ('CaseStmt', 'DefaultStmt'):
+                        if x_.get('kind') == 'CaseStmt':
+                            if bv_const(self.eval(kids(x_)[0], env, depth)) == v_ and start is None:
+                                start = i_
+                        else:
+                            dflt = i_
+                        sub_ = [c for c in kids(x_) if c.get('kind')]
+                        x_ = sub_[-1] if sub_ else None
+                if start is None:
+                    start = dflt
+                if start is not None:
+                    try:
+                        for st_ in sts_[start:]:
+                            x_ = st_
+                            while x_ is not None and x_.get('kind') in ('CaseStmt', 'DefaultStmt'):
+                                sub_ = [c for c in kids(x_) if c.get('kind')]
+                                x_ = sub_[-1] if sub_ else None
+                            if x_ is not None:
+                                self.run([x_], env, depth, want_ptr)
+                    except _Brk:
+                        pass
+                continue
+            if k == 'AttributedStmt':
+                self.run([c for c in kids(s) if c.get('kind') and not c['kind'].endswith('Attr')], env, depth, want_ptr)
+                continue
             self.step(s, env, depth)
 
     def vec(self, n, env):
@@ -967,6 +1012,13 @@ class BVExec(Interp):
                 self.call(fd, call_args(e), env, depth + 1)
                 # member state written by the callee lives in tuple keys: copy back
                 return
+        if k == 'CXXOperatorCallExpr' and call_name(e) == 'operator+=' and len(kids(e)) == 3:
+            vec, key = self.vec(kids(e)[1], env)
+            if vec is not None:
+                vec.append(self.cast(self.eval(kids(e)[2], env, depth), 'unsigned char'))
+                return
+        if k == 'CXXOperatorCallExpr' and call_name(e) == 'operator=' and len(kids(e)) == 3 and '*' in (qtype(kids(e)[1]) or ''):
+            pass
         if k in ('CallExpr', 'CXXOperatorCallExpr', 'CXXMemberCallExpr'):
             self.eval(e, env, depth)
             return
